@@ -14,6 +14,7 @@ import (
 	"path/filepath"
 	"sort"
 	"strings"
+	"time"
 
 	homedir "github.com/mitchellh/go-homedir"
 	"github.com/pgavlin/dawn/diff"
@@ -277,6 +278,7 @@ type procCfg struct {
 	SplitWrites bool
 	MapFixed    bool
 	MaxSteps    int
+	WatchdogS   int // seconds of real time without the process finishing before it is declared stuck
 }
 
 type procResult struct {
@@ -303,6 +305,9 @@ func (w *world) newSim(name string, pc procCfg, stepHook func(step int, kind, de
 	}
 	if cfg.MaxSteps == 0 {
 		cfg.MaxSteps = 400000
+	}
+	if pc.WatchdogS > 0 {
+		cfg.Watchdog = time.Duration(pc.WatchdogS) * time.Second
 	}
 	if w.ctx.Trace {
 		cfg.TraceMax = 3000
